@@ -169,6 +169,9 @@ def seed_files():
     seeds.append(('xrefstm-pred', pdf_xref_stream(predictor=True)))
     seeds.append(('xrefstm-w', pdf_xref_stream(w=(1, 4, 2))))
     seeds.append(('incremental', pdf_incremental()))
+    seeds.append(('prevchain-open', prev_chain_file(['t', 's', 't'], [1, 2, None])))
+    seeds.append(('prevchain-rho', prev_chain_file(['s', 't', 's'], [1, 2, 1])))
+    seeds.append(('prevchain-xrefstm', prev_chain_file(['t', 's', 't', 's', 't'], [1, 2, 3, 4, 2], {0: 3, 2: 1, 4: 3})))
     return seeds
 
 
@@ -644,6 +647,112 @@ def pdf_with_tounicode(cmap, text, clen):
 
 
 # ------------------------------------------------------------------------------------------
+# Prev-chain shapes: the graph of cross-reference sections a file can describe.  Section 0 is the one startxref names;
+# every section may name another one by Prev (and a table section a cross-reference stream by XRefStm).  Reader::read must
+# stop on every shape: self loops, cycles through the first section, and rho shapes (a tail of 1..3 sections leading into a
+# cycle of 2..4 sections that does not contain the first one).
+# ------------------------------------------------------------------------------------------
+def prev_chain_file(kinds, nxt, xrefstm=None, eof_tail=b'\n'):
+    """kinds[i] in 't' / 's': section i is a table with trailer / a cross-reference stream; nxt[i]: the section its Prev names
+    (None: no Prev; an int >= len(kinds): that many bytes behind the end of the file region, i.e. a wild offset);
+    xrefstm: {i: j} the trailer of table section i has XRefStm naming section j.  Offsets are written with 10 digits, so the
+    layout does not depend on them (two passes)."""
+    xrefstm = xrefstm or {}
+    pos = {i: 0 for i in range(len(kinds))}
+
+    def build():
+        out = bytearray(b'%PDF-1.5\n')
+        offs = {}
+        for num, body in [(1, b'<</Type/Catalog/Pages 2 0 R>>'), (2, b'<</Type/Pages/Kids[]/Count 0>>')]:
+            offs[num] = len(out)
+            out += b'%d 0 obj\n%s\nendobj\n' % (num, body)
+        here = {}
+        for i, k in enumerate(kinds):
+            here[i] = len(out)
+            extra = b''
+            if nxt[i] is not None:
+                extra += b'/Prev %010d' % (pos[nxt[i]] if nxt[i] < len(kinds) else 9000000000 + nxt[i])
+            if i in xrefstm:
+                extra += b'/XRefStm %010d' % pos[xrefstm[i]]
+            if k == 't':
+                out += b'xref\n0 3\n0000000000 65535 f \n%010d 00000 n \n%010d 00000 n \n' % (offs[1], offs[2])
+                out += b'trailer\n<</Size %d/Root 1 0 R%s>>\n' % (10 + len(kinds), extra)
+            else:
+                num = 10 + i
+                rows = [(0, 0, 255), (1, offs[1], 0), (1, offs[2], 0), (1, here[i], 0)]
+                data = b''.join(bytes([t]) + a.to_bytes(2, 'big') + bytes([g]) for t, a, g in rows)
+                out += b'%d 0 obj\n<</Type/XRef/Size %d/W[1 2 1]/Index[0 3 %d 1]/Root 1 0 R%s/Length %d>>stream\n' % (
+                    num, 10 + len(kinds), num, extra, len(data)) + data + b'\nendstream\nendobj\n'
+        out += b'startxref\n%d\n%%%%EOF' % here[0] + eof_tail
+        return bytes(out), here
+    _, here = build()
+    pos.update(here)
+    return build()[0]
+
+
+def prev_chain_shapes():
+    """(name, nxt) with section 0 first: tail t (sections before the cycle, 0 = the cycle passes through the first section),
+    cycle c (1 = self loop)"""
+    for t in range(0, 4):
+        for c in range(1, 5):
+            n = t + c
+            nxt = [i + 1 for i in range(n)]
+            nxt[n - 1] = t
+            yield 't%dc%d' % (t, c), nxt
+    yield 'open3', [1, 2, None]                  # no cycle: the chain just ends
+    yield 'wild', [1, 2, 5]                      # the last Prev points outside the file
+    yield 'fan', [2, 2, 1]                       # 0 -> 2 -> 1 -> 2
+
+
+def prev_chain_family(q):
+    for name, nxt in prev_chain_shapes():
+        n = len(nxt)
+        layouts = [('t', ['t'] * n), ('s', ['s'] * n), ('ts', [('t', 's')[i % 2] for i in range(n)]), ('st', [('s', 't')[i % 2] for i in range(n)])]
+        for li, (lname, kinds) in enumerate(layouts):
+            if q and lname in ('ts', 'st') and n % 2:          # quick tier: the alternating layouts for every other shape
+                continue
+            f = prev_chain_file(kinds, nxt)
+            yield 'loadm', name + '-' + lname, f
+            if not q or (lname == 't' and n % 2 == 0) or (lname == 's' and n % 2 == 1):
+                yield 'incloadm', name + '-' + lname, f
+            # the sections in the opposite file order (Prev pointing forwards and backwards)
+            if n >= 2 and (not q or (lname == 't' and n <= 3) or (lname == 'st' and n == 4)):
+                perm = list(range(n))[::-1]
+                inv = {old: new for new, old in enumerate(perm)}
+                # section 0 must stay the one startxref names: build with renamed indices, startxref = position of old 0
+                kinds2 = [kinds[perm[j]] for j in range(n)]
+                nxt2 = [None if nxt[perm[j]] is None else (inv[nxt[perm[j]]] if nxt[perm[j]] < n else nxt[perm[j]]) for j in range(n)]
+                f2 = prev_chain_file_start(kinds2, nxt2, inv[0])
+                yield 'loadm', name + '-' + lname + '-rev', f2
+    # XRefStm pointers into the chain: a table section names a cross-reference stream by XRefStm; that stream is a node of the
+    # chain, a node of the cycle, the naming section itself (a table read as the stream), or a section outside the chain
+    # whose own Prev leads into it
+    for name, kinds, nxt, xs in [
+        ('x-into-cycle', ['t', 't', 's', 's'], [1, 2, 3, 2], {0: 2}),
+        ('x-into-cycle2', ['t', 't', 's', 's'], [1, 2, 3, 2], {1: 3}),
+        ('x-every', ['t', 's', 't', 's'], [1, 2, 3, 1], {0: 1, 2: 3}),
+        ('x-self', ['t', 't', 't'], [1, 2, 1], {0: 0, 1: 1, 2: 2}),
+        ('x-table', ['t', 't', 't'], [1, 2, 1], {0: 2, 1: 0}),
+        ('x-outside', ['t', 't', 't', 's'], [1, 2, 1, 1], {0: 3, 2: 3}),
+        ('x-outside-self', ['t', 't', 's'], [1, 0, 2], {0: 2, 1: 2}),
+        ('x-first-only', ['t', 's'], [None, 0], {0: 1}),
+        ('x-rho', ['t', 's', 't', 's', 't'], [1, 2, 3, 4, 2], {0: 3, 2: 1, 4: 3}),
+    ]:
+        f = prev_chain_file(kinds, nxt, xs)
+        yield 'loadm', name, f
+        if not q or name in ('x-rho', 'x-self', 'x-first-only'):
+            yield 'incloadm', name, f
+
+
+def prev_chain_file_start(kinds, nxt, start):
+    """as prev_chain_file with startxref naming section [start]"""
+    f = prev_chain_file(kinds, nxt)
+    # recompute the section positions: tables start with "xref\n", streams with "<num> 0 obj\n<</Type/XRef"
+    starts = [m.start() for m in re.finditer(rb'(?:xref\n0 3\n|\d+ 0 obj\n<</Type/XRef)', f)]
+    return re.sub(rb'startxref\n\d+\n', b'startxref\n%d\n' % starts[start], f)
+
+
+# ------------------------------------------------------------------------------------------
 # known finding C04-objstm-shared-offsets: the index of an object stream names the same offset again and again; every
 # pair parses -- and keeps -- the object that starts there: pairs * |object| bytes from an index of 5 bytes per pair
 # ------------------------------------------------------------------------------------------
@@ -800,6 +909,8 @@ def gen_cases(rng, tier):
     add(case('load', XB(pdf_classic(chain))), 'load-length-chain')
     add(case('load', XB(pdf_classic([(1, b'<</Type/Catalog/X ' + b'[' * 50000 + b'>>')]))), 'load-deep-array')
     add(case('load', XB(pdf_classic(simple_objs(), prev=0))), 'load-prev-0')
+    for kind, name, f in prev_chain_family(q):
+        add(case(kind, XB(f)), kind + '-prevchain')
     return cases
 
 
@@ -841,7 +952,9 @@ SPEC = {
             'and DecodeParms extremes), the recorded defects and their neighbours as directed cases on every run (W arrays of length 2..5 over {0,1,negative} with huge and with many Index pairs; bfrange target arrays exact / one short / one long / empty / after an overlapping definition with text using first and last codes; containers nested at and around the reader\'s limit with 100 string brackets inside), plus structure-aware mutations (bit, byte, truncation, numeric extremes in every number, token '
             'delete/duplicate/swap, splice, inserted nesting, Prev and Length cycles, duplicated chunks, leading junk) of the '
             'repository assets and of documents built here (classic table, indirect Length, xref stream + object stream with and '
-            'without predictor, incremental update), all run in an isolated worker with time, stack and memory limits; '
+            'without predictor, incremental update), plus the Prev-chain shapes (self loops, cycles of 1-4 sections through the first '
+            'section, rho shapes with a tail of 1-3 and a cycle of 1-4 sections, tables / streams / mixed, both file orders, XRefStm '
+            'pointers into the chain; also run through c01\'s loader model), all run in an isolated worker with time, stack and memory limits; '
             'non-trivial = non-empty input; distinct = distinct case text',
     'extra_trusted': [
         'C04: nom, flate2, weezl, encoding_rs, stringprep, rangemap are assumed total (no panic sites of theirs are modelled)',
